@@ -64,6 +64,10 @@ class Ctx:
 
     def close(self):
         for n in self.natives.values(): n.close()
+        b = getattr(self, '_cli_bin', None)
+        if b:
+            try: os.unlink(b)
+            except OSError: pass
 
 
 def load_findings():
